@@ -90,3 +90,17 @@ pub fn max_abs_sum(ev: &[Event]) -> Option<f64> {
     }
     m
 }
+
+/// Like `resize_vec`, but the source is a `TypedImage` (not a `TypedImageRef`): the library then uses the default
+/// implementations of the `ImageView` methods instead of the specialised ones.
+pub fn resize_vec_typed_src<P: Px>(src: &[P], sw: u32, sh: u32, dw: u32, dh: u32, opts: &ResizeOptions, ext: Ext) -> Result<Vec<P>, ResizeError> {
+    let mut r = resizer(ext);
+    let mut copy = src.to_vec();
+    let src_img = TypedImage::from_pixels_slice(sw, sh, &mut copy).expect("source buffer size");
+    let mut dst = sentinel::<P>(dw as usize * dh as usize);
+    {
+        let mut dst_img = TypedImage::from_pixels_slice(dw, dh, &mut dst).expect("destination buffer size");
+        r.resize_typed(&src_img, &mut dst_img, opts)?;
+    }
+    Ok(dst)
+}
